@@ -7,6 +7,7 @@ import (
 	"fmt"
 	"io"
 	"log"
+	"math"
 	"net"
 	"net/http"
 	"os"
@@ -394,7 +395,12 @@ func (zns *ZnPMServer) StartWorker() error {
 	}
 	// get execution timeout
 	timeout := defaultTimeout
-	if t, err := strconv.Atoi(os.Getenv(EnvExecTimeout)); err == nil {
+	// a number of seconds that does not fit a time.Duration would wrap around to a deadline in
+	// the past (every request would be dropped at once): cut it down to the largest one
+	const maxTimeout = int(math.MaxInt64 / int64(time.Second))
+	if t, err := strconv.Atoi(os.Getenv(EnvExecTimeout)); err == nil && t > maxTimeout {
+		timeout = maxTimeout
+	} else if err == nil {
 		timeout = t
 	}
 
